@@ -23,6 +23,7 @@ type runner struct{ *gi.Runner }
 // monitor runs the C05 oracle after a step.
 func (rn *runner) monitor(s *gi.Session, st *gi.Step) {
 	fs := s.W.CheckAgree(st.Op.Kind, true)
+	fs = append(fs, gi.StoreObjectsTouchedByFailure(st, s.W.StoreMap())...)
 	for _, f := range fs {
 		if s.Tainted[f.IP] == "env" {
 			rn.R.Hit("skipped:admin-recreated-reservation-before-its-delete-event (EnvOK)")
